@@ -14,7 +14,9 @@ from pathlib import Path
 VERIF = Path(__file__).resolve().parent.parent
 REPO = Path(os.environ.get("VERIF_REPO", "/repo"))
 COQ = VERIF / "coq"
-BUILD = VERIF / "build"
+BUILD_ROOT = VERIF / "build"
+# every process gets its own scratch directory, so that concurrent runs (even of the same property) never share generated files
+BUILD = BUILD_ROOT / f"run_{os.getpid()}"
 EVIDENCE = VERIF / "evidence"
 CORPUS = VERIF / "corpus"
 OCAMLRUNPARAM = "s=4M,h=256M"   # measured here: coqc spends >90% of its time in heap growth without it
@@ -67,10 +69,20 @@ def coq_env():
     return e
 
 
+def _cleanup_build():
+    import shutil
+    if not os.environ.get("VERIF_KEEP_BUILD"):
+        shutil.rmtree(BUILD, ignore_errors=True)
+
+
+import atexit  # noqa: E402
+atexit.register(_cleanup_build)
+
+
 class Lock:
     def __init__(self, name):
-        BUILD.mkdir(exist_ok=True)
-        self.path = BUILD / (name + ".lock")
+        BUILD_ROOT.mkdir(exist_ok=True)
+        self.path = BUILD_ROOT / (name + ".lock")
 
     def __enter__(self):
         self.f = open(self.path, "w")
